@@ -48,6 +48,9 @@ def gen_plain(rng, max_ranks=3, allow_take=True, allow_scalar=True, allow_out_on
         kind = "take"
     nterms = 1 if (kind == "take" or product_only) else _choice_w(rng, [(1, 6), (2, 3), (3, 1)])
     names = list(INPUTS)
+    if rng.random() < 0.15:
+        # a tensor whose name contains another tensor's name (A, AB)
+        names.insert(1, names[0] + "B")
     decl = {}
     terms = []
     scalars = []
@@ -1067,6 +1070,9 @@ def gen_mixed(rng, weights=None):
         spec, meta = gen_affine(rng)
     elif c == "Os":
         spec, meta = gen_sigma_like(rng)
+    elif c == "O2":
+        # two flattenings of one tensor: the region where emission order (hash seed) has decided correctness
+        spec, meta = gen_flatten2(rng)
     elif c == "A+":
         spec, meta = gen_affine(rng, allow_occ=True)
     elif c == "A2":
